@@ -31,8 +31,8 @@ using namespace vfps;
 static int bad = 0;
 static std::string str(const std::string& s) { return s; }
 static std::string str(bool b) { return b ? "1" : "0"; }
-static std::string str(const std::vector<integral_t>& v) { std::ostringstream o; for (auto x : v) o << x << ' '; return o.str(); }
-template <class T> static std::string str(T v) { std::ostringstream o; o.precision(9); o << +v; return o.str(); }
+static std::string str(const std::vector<integral_t>& v) { std::ostringstream o; o.precision(17); for (auto x : v) o << x << ' '; return o.str(); }
+template <class T> static std::string str(T v) { std::ostringstream o; o.precision(17); o << +v; return o.str(); }
 struct Acc { const char* name; std::function<std::string(ProgramOptions&)> get; };
 #define A(g) Acc{#g, [](ProgramOptions& o) { return str(o.g()); }}
 static std::vector<Acc> accessors() {
@@ -98,6 +98,8 @@ int main(int argc, char** argv) {
             {"--alpha0", "0.005", "-V", "1.2e6", "-n", "7", "--RenormalizeCharge", "3", "--FPType", "1", "--FPTrack", "2"},
             {"-c", cur}, {"-c", cur, "-f", "8000", "-N", "900"},
             {"-c", leg}, {"-c", leg, "-f", "8000"}, {"-c", leg, "-V", "1.1e6", "-N", "700"},
+            {"-F", "2715563.7", "-E", "1.2345678e9", "-I", "0.00123456789", "0.000987654321", "-f", "8765.4321", "--alpha1", "0.0123456789", "-T", "3.14159265", "-d", "0.0123456789",
+             "-V", "1234567.89", "--CutoffFreq", "2.3456789e10", "--VacuumGap", "0.0323456789", "--InitialDistZoom", "1.23456789"},
             {"--PhaseSpaceShiftX", "5", "--PhaseSpaceShiftY", "-3", "--padding", "4", "--RoundPadding", "0", "--InterpolationPoints", "3", "--derivation", "4"}};
         int si = 0;
         for (auto& args : scen) {
@@ -109,8 +111,7 @@ int main(int argc, char** argv) {
             ProgramOptions b;
             if (!parse(b, {"-c", saved})) { printf("MISMATCH scenario %d: saved config refused\n", si); bad++; continue; }
             for (auto& ac : accs) { std::string x = ac.get(a), y = ac.get(b);
-                double xv = atof(x.c_str()), yv = atof(y.c_str());
-                bool same = (x == y) || (std::fabs(xv - yv) <= 2e-5 * (std::fabs(xv) + std::fabs(yv)) && x.find(' ') == std::string::npos);   // text written with 6 significant digits
+                bool same = (x == y);      // exactly the same value (C13), printed with 17 significant digits
                 if (std::string(ac.name) == "getAlpha0" && a.getSyncFreq() != 0) continue;    // alpha0 is deliberately written as 0 when a synchrotron frequency is in use
                 if (!same) { if (bad < 10) printf("MISMATCH scenario %d: %s() original=%s, from the saved config=%s\n", si, ac.name, x.c_str(), y.c_str()); bad++; } }
         }
